@@ -12,6 +12,9 @@ import torch
 from vkit import harness as H
 from vkit import oracle as O
 from vkit import symex
+from fractions import Fraction
+
+ONE = Fraction(1)   # exact constant: python's int / int would produce a float
 
 # ----------------------------------------------------------------- models
 # layer spec: ('linear', in, out, bias) | ('conv', cin, cout, (kh,kw), (sh,sw), (ph,pw), bias, H, W)
@@ -121,12 +124,12 @@ def a_rows(spec, x):
     if spec[0] == 'linear':
         rows = _rows2d(x, spec[1])
         if spec[3]:
-            rows = [r + [1] for r in rows]
+            rows = [r + [ONE] for r in rows]
         return rows
     (kh, kw), (sh, sw), (ph, pw) = spec[3], spec[4], spec[5]
     rows, oh, ow = O.im2col(x, kh, kw, sh, sw, ph, pw)
     if spec[6]:
-        rows = [r + [1] for r in rows]
+        rows = [r + [ONE] for r in rows]
     sp = oh * ow
     return [[v / sp for v in r] for r in rows]
 
